@@ -605,7 +605,8 @@ theorem history_from_empty [DecidableEq κ] {cfg : Cfg κ} (hg : Good cfg.ctx) (
 theorem cache_layout_facts :
     Dud.Facts.cacheFilePerms = 0o444 ∧ Dud.Facts.pathSplitHead = 2 ∧ Dud.Facts.pathSplitTail = 2 ∧
     Dud.Facts.minChecksumLen = 3 ∧
-    Dud.Facts.commitBytesOrder = ["os.CreateTemp", "checksum.Checksum", "os.MkdirAll", "os.Rename", "os.Chmod"] ∧
+    Dud.Facts.commitBytesOrder =
+      ["os.CreateTemp", "os.Remove", "checksum.Checksum", "os.MkdirAll", "os.Rename", "os.Chmod"] ∧
     Dud.Facts.commitTempDir = "ch.dir" ∧ Dud.Facts.commitRenameArgs = "moveFile,cachePath" ∧
     Dud.Facts.commitChmodArgs = "cachePath,cacheFilePerms" := by decide
 
